@@ -1384,12 +1384,73 @@ def _reduce_to_loop(node) -> bool:
                     if isinstance(gen, ast.Name) and gen.id in pending_gen:
                         gst, drop_at = pending_gen[gen.id]
                         gen = gst.value
-                    if op is not None and isinstance(gen, (ast.GeneratorExp, ast.ListComp)) and len(gen.generators) == 1 and not gen.generators[0].is_async:
+                    # reduce(lambda acc, x: F(acc, x), GEN, INIT) / reduce(lambda acc, ix: F(acc, ix[0], ix[1]), enumerate(GEN), INIT) with GEN a
+                    # generator over range(N): the step is F with x := the element (and ix[0] := the loop variable, which counts from 0)
+                    lam_step = None
+                    lam = call.args[0]
+                    if op is None and isinstance(lam, ast.Lambda) and len(lam.args.args) == 2 and not lam.args.defaults and not lam.args.vararg \
+                            and not lam.args.kwarg and not lam.args.kwonlyargs:
+                        a_name, p_name = lam.args.args[0].arg, lam.args.args[1].arg
+                        gen2, enum = gen, False
+                        if isinstance(gen2, ast.Call) and isinstance(gen2.func, ast.Name) and gen2.func.id == "enumerate" and len(gen2.args) == 1 and not gen2.keywords:
+                            gen2, enum = gen2.args[0], True
+                        d2 = None
+                        if isinstance(gen2, ast.Name) and gen2.id in pending_gen:
+                            gst2, d2 = pending_gen[gen2.id]
+                            gen2 = gst2.value
+                        if isinstance(gen2, (ast.GeneratorExp, ast.ListComp)) and len(gen2.generators) == 1 and not gen2.generators[0].is_async:
+                            g2 = gen2.generators[0]
+                            ok2 = True
+                            idx = None
+                            if enum:
+                                ok2 = (not g2.ifs and isinstance(g2.target, ast.Name) and isinstance(g2.iter, ast.Call) and isinstance(g2.iter.func, ast.Name)
+                                       and g2.iter.func.id == "range" and len(g2.iter.args) == 1 and not g2.iter.keywords)
+                                idx = g2.target.id if ok2 else None
+                            par: dict = {}
+                            for x in ast.walk(lam.body):
+                                for ch in ast.iter_child_nodes(x):
+                                    par[id(ch)] = x
+                            for x in ast.walk(lam.body):
+                                if isinstance(x, ast.Name) and x.id == p_name and enum:
+                                    pp_ = par.get(id(x))
+                                    if not (isinstance(pp_, ast.Subscript) and pp_.value is x and isinstance(pp_.slice, ast.Constant) and pp_.slice.value in (0, 1)):
+                                        ok2 = False
+                                if isinstance(x, (ast.Lambda, ast.NamedExpr)):
+                                    ok2 = False
+                            # the lambda's names must not capture the generator's variable differently: the element expression is moved
+                            # into the lambda body, whose only bound names are its two parameters
+                            if ok2 and not (isinstance(g2.target, ast.Name) and g2.target.id in (a_name, p_name)):
+                                elt2 = gen2.elt
+
+                                class L(ast.NodeTransformer):
+                                    def visit_Subscript(self, n_):
+                                        if enum and isinstance(n_.value, ast.Name) and n_.value.id == p_name and isinstance(n_.slice, ast.Constant):
+                                            return ast.Name(id=idx, ctx=ast.Load()) if n_.slice.value == 0 else copy.deepcopy(elt2)
+                                        return self.generic_visit(n_)
+
+                                    def visit_Name(self, n_):
+                                        if n_.id == p_name and not enum:
+                                            return copy.deepcopy(elt2)
+                                        return n_
+                                lam_step = (L().visit(copy.deepcopy(lam.body)), a_name)
+                                gen = gen2
+                                if d2 is not None:
+                                    drop_at = d2
+                    if (op is not None or lam_step is not None) and isinstance(gen, (ast.GeneratorExp, ast.ListComp)) and len(gen.generators) == 1 \
+                            and not gen.generators[0].is_async:
                         g0 = gen.generators[0]
                         counter[0] += 1
                         acc = f"_red{counter[0]}"
-                        body: list = [ast.Assign(targets=[ast.Name(id=acc, ctx=ast.Store())],
-                                                 value=ast.BinOp(left=ast.Name(id=acc, ctx=ast.Load()), op=op(), right=gen.elt), lineno=st.lineno)]
+                        if lam_step is not None:
+                            class A_(ast.NodeTransformer):
+                                def visit_Name(self, n_):
+                                    if n_.id == lam_step[1]:
+                                        return ast.Name(id=acc, ctx=n_.ctx)
+                                    return n_
+                            step_val = A_().visit(lam_step[0])
+                        else:
+                            step_val = ast.BinOp(left=ast.Name(id=acc, ctx=ast.Load()), op=op(), right=gen.elt)
+                        body: list = [ast.Assign(targets=[ast.Name(id=acc, ctx=ast.Store())], value=step_val, lineno=st.lineno)]
                         for c in reversed(g0.ifs):
                             body = [ast.If(test=c, body=body, orelse=[])]
                         loop = ast.For(target=g0.target, iter=g0.iter, body=body, orelse=[], lineno=st.lineno)
@@ -1488,6 +1549,46 @@ def _alias_locals(model, f, node) -> bool:
     drop = {id(st) for st, _ in cands.values()}
     node.body = [T().visit(st) for st in node.body if id(st) not in drop]
     return True
+
+def _namedtuple_locals(model, f, node) -> bool:
+    """A local whose every binding in the function is a constructor call of one typing.NamedTuple class: `layout.stages` is
+    `layout[0]` whatever else the field name means in the package (the receiver is known, so the name-based exclusion of
+    `_namedtuple_fields` does not apply)."""
+    classes = _namedtuple_fields(model)[0]
+    if not classes:
+        return False
+    binds: dict = {}
+    for n in ast.walk(node):
+        if isinstance(n, ast.Name) and isinstance(n.ctx, (ast.Store, ast.Del)):
+            binds.setdefault(n.id, []).append(n)
+    params = set(f.params)
+    ctor: dict = {}
+    for n in ast.walk(node):
+        tgt = n.targets[0] if isinstance(n, ast.Assign) and len(n.targets) == 1 else n.target if isinstance(n, ast.AnnAssign) and n.value is not None else None
+        if isinstance(tgt, ast.Name) and tgt.id not in params:
+            v = n.value
+            fn_ = v.func if isinstance(v, ast.Call) else None
+            fn_ = fn_.value if isinstance(fn_, ast.Subscript) else fn_
+            k = model.resolve_name(f.module, fn_.id) if isinstance(fn_, ast.Name) else None
+            q = getattr(k, "qname", None)
+            ctor.setdefault(tgt.id, []).append(q if q in classes else None)
+    local_cls = {nm: qs[0] for nm, qs in ctor.items() if qs and all(q is not None and q == qs[0] for q in qs) and len(qs) == len(binds.get(nm, []))}
+    if not local_cls:
+        return False
+    changed = [False]
+
+    class T(ast.NodeTransformer):
+        def visit_Attribute(self, n: ast.Attribute):
+            self.generic_visit(n)
+            if isinstance(n.ctx, ast.Load) and isinstance(n.value, ast.Name) and n.value.id in local_cls:
+                fields = classes[local_cls[n.value.id]][0]
+                if n.attr in fields:
+                    changed[0] = True
+                    return ast.copy_location(ast.Subscript(value=n.value, slice=ast.Constant(value=fields.index(n.attr)), ctx=ast.Load()), n)
+            return n
+    node.body = [T().visit(st) for st in node.body]
+    return changed[0]
+
 
 def _nested_generators(node) -> bool:
     """A parameterless generator function defined inside a function and consumed once, by the very next statement:
@@ -1765,6 +1866,7 @@ def canonicalise(model, f) -> bool:
         named = _nested_generators(node) or named
     if any(isinstance(n, (ast.Name, ast.Attribute)) and (getattr(n, "id", None) == "reduce" or getattr(n, "attr", None) == "reduce") for n in ast.walk(node)):
         named = _reduce_to_loop(node) or named
+    named = _namedtuple_locals(model, f, node) or named
     if any(isinstance(n, ast.Name) and n.id == "enumerate" for n in ast.walk(node)):
         from . import loopnorm as _ln
         if _ln.NONZERO_ATTR is not None:
